@@ -66,6 +66,14 @@ Proof.
   vm_compute. repeat constructor.
 Qed.
 
+(* concat_nodes / concat_oov_nodes can fail in exactly one way, the `begin >= end` guard the model's ErrRange stands for
+   (no second `Err(..)`, no `?`): with C14_no_invalid_range the path-rewrite stage never turns an analysis that
+   succeeded into an error *)
+Fact C14_fact_concat_error_returns :
+  (RF.concat_nodes_error_returns, RF.concat_nodes_question_marks, RF.concat_oov_nodes_error_returns, RF.concat_oov_nodes_question_marks)
+  = (1, 0, 1, 0)%N.
+Proof. vm_compute. reflexivity. Qed.
+
 (* the katakana loop finishes within |p|+1 iterations and every concat_oov_nodes call has begin < end <= |p| *)
 Theorem C14_katakana_terminates :
   forall ml op p, exists q, join_katakana ml op p = Some (Ok q).
